@@ -175,12 +175,12 @@ example : PnmIntOk 2147483000 ∧ ¬ PnmIntOk 2147483639 := by unfold PnmIntOk; 
 example : decodePnm rgb8 6 (encodePnm rgb8 6 ⟨12, 1, [[⟨1,2,3⟩,⟨4,5,6⟩,⟨7,8,9⟩,⟨1,2,3⟩,⟨4,5,6⟩,⟨7,8,9⟩,⟨1,2,3⟩,⟨4,5,6⟩,⟨7,8,9⟩,⟨1,2,3⟩,⟨4,5,6⟩,⟨7,8,9⟩]]⟩) Settings.full
     = some ⟨12, 1, [[⟨1,2,3⟩,⟨4,5,6⟩,⟨7,8,9⟩,⟨1,2,3⟩,⟨4,5,6⟩,⟨7,8,9⟩,⟨1,2,3⟩,⟨4,5,6⟩,⟨7,8,9⟩,⟨1,2,3⟩,⟨4,5,6⟩,⟨7,8,9⟩]]⟩ := by decide
 
-/-! ### PNM mono (P4, gray1_image_t) -- the property FAILS on the current tree
+/-! ### PNM mono (P4, gray1_image_t)
 
--- OPEN (not proven; false on the current tree, see the two witnesses below):
---   theorem C12_pnm_mono_roundtrip (img : Img Bool) (wf : img.WF) (hw : PnmIntOk img.w) (hh : PnmIntOk img.h) :
---       ∃ file, encodePnmMono img = some file ∧ decodePnmMono file Settings.full = some img
--/
+  The property FAILED on the tree up to fedfb71^ (writer overrun for `w % 8 ≠ 0`, reader swapping half bytes): the witnesses and
+  the exact characterisation below are about that code (`rtPnm4`, selected by checks/C12.py when the tree's source still has
+  `row( pitch / 8 )` / `swap_half_bytes`).  /repo now carries the proposed fix (commit fedfb71); the model of that code is
+  `rtPnm4Variant true true` and the full statement is `C12_pnm_mono_roundtrip` at the end of this section. -/
 
 /-- writer defect: for every width that is not a multiple of 8 the gray1 writer overruns its row buffer -/
 theorem C12_pnm_mono_write_ub (img : Img Bool) (h : img.w % 8 ≠ 0) : rtPnm4 img = Outcome.ub := by
@@ -326,6 +326,15 @@ theorem C12_pnm_mono_roundtrip_proposed_fix_exec (img : Img Bool) (wf : img.WF) 
   have hfst : (rows.zip pads).map Prod.fst = rows := List.map_fst_zip (by omega)
   rw [hfst] at this
   simpa [decodePnmMonoFixed, encodePnmMonoFixedExec, h3] using this
+
+/-- PNM mono, the tree as fixed by fedfb71 (what checks/C12.py runs against the current /repo): for EVERY width (all residues
+    mod 8), height and content, `read_image (write_view img) = img` -/
+theorem C12_pnm_mono_roundtrip (img : Img Bool) (wf : img.WF) (hw : PnmIntOk img.w) (hh : PnmIntOk img.h) :
+    rtPnm4Variant true true img = Outcome.done (encodePnmMonoFixedExec img) (some img) := by
+  simp [rtPnm4Variant, C12_pnm_mono_roundtrip_proposed_fix_exec img wf hw hh]
+
+example : rtPnm4Variant true true ⟨5, 2, [[true, false, true, true, false], [false, false, true, false, true]]⟩ =
+    Outcome.done [80, 52, 32, 53, 32, 50, 32, 0x4f, 0xd5] (some ⟨5, 2, [[true, false, true, true, false], [false, false, true, false, true]]⟩) := by decide
 
 example : (⟨16, 1, [[true, false, true, true, false, false, false, true, true, true, true, false, true, false, false, false]]⟩ : Img Bool).w % 8 = 0 := rfl
 
